@@ -26,7 +26,7 @@ ACC_TRIGGERS = {2: "C10.no_eligible_candidate"}   # 1 (duplicate key) fixed by /
 RULE_TRIGGERS = {}   # frozen-in-window fixed by /repo 304e1e1
 CONV_TRIGGERS = {1: "C10.member_without_record"}
 CRASH_TRIGGERS = {}   # both crash classes fixed by /repo e681066: every node exit in EndBlock is a violation
-NCODES = 7
+NCODES = 8
 
 
 def run_harness(ctx, vh, shards, n, ntm, extra=None):
@@ -79,7 +79,7 @@ def evaluate(out_dir, cases, files, tfiles, cfiles=()):
 
 def payload(c, codes, what):
     return {"kind": what, "history_kind": c["kind"], "hseed": c["hseed"], "height": c["height"], "case": c,
-            "codes[mm,tm,acc,rule,conv,keyed,negp]": codes, "how": "./check replay <this file>"}
+            "codes[mm,tm,acc,rule,conv,keyed,negp,staked]": codes, "how": "./check replay <this file>"}
 
 
 def judge(ctx, cases, codes, tcases, tres, crashed=(), cres=()):
@@ -92,12 +92,13 @@ def judge(ctx, cases, codes, tcases, tres, crashed=(), cres=()):
             found = True
             ctx.violation("crash_%d_h%d" % (c["hseed"], c["height"]), payload(c, [k], "node-exits-in-endblock-no-updates-returned"))
     for c, k in zip(cases, codes):
-        mm, tm, acc, rule, conv, keyed, negp = k
+        mm, tm, acc, rule, conv, keyed, negp, staked = k
         for (code, table, what) in ((acc, ACC_TRIGGERS, "tendermint-rejects-validator-updates"),
                                     (rule, RULE_TRIGGERS, "update-violates-staking-rule"),
                                     (conv, CONV_TRIGGERS, "active-set-does-not-converge-to-election"),
                                     (keyed, {}, "record-address-is-not-the-address-of-its-key"),
-                                    (negp, {}, "validator-record-with-negative-power")):
+                                    (negp, {}, "validator-record-with-negative-power"),
+                                    (staked, {}, "staked-validator-above-the-minimum-has-no-record")):
             if code == 0:
                 continue
             if code in table and ctx.known_finding(table[code], what):
@@ -203,6 +204,8 @@ def run(ctx):
         "blocks_with_absent_signers": sum(1 for c in cases if c.get("absent")),
         "blocks_with_absent_signer_outside_the_election": sum(1 for c in cases if any(a not in [u["k"] for u in c["ups"] if u["v"] > 0] for a in (c.get("absent") or []))),
         "convergence_checked_blocks_with_absent_signer": sum(1 for c in cases if c["quiet"] >= 5 and c["tm_ok"] and c.get("absent")),
+        "staked_has_record_monitor[0 ok,1 missing record]": hist(k[7] for k in codes),
+        "restakes_right_after_full_unstake": sum(1 for c in cases for t in (c.get("txs") or []) if "again" in t and " -> 0" in t),
         "releases_executed": sum(len(c.get("released") or []) for c in cases),
         "released_validators_re_elected": released_reelected(cases),
         "freezes_by_missed_votes_or_verdict_blocks": sum(1 for c in cases if c["mal"]),
@@ -231,6 +234,6 @@ def replay(ctx, rp):
     for c, k in zip(crashed, cres):
         print("height", c["height"], "NODE EXITED in EndBlock; crash code", k, c.get("txs") or "")
     for c, k in zip(cases, codes):
-        print("height", c["height"], "codes[mm,tm,acc,rule,conv,keyed,negp]", k, "updates", [(u["k"], u["v"]) for u in c["ups"]],
+        print("height", c["height"], "codes[mm,tm,acc,rule,conv,keyed,negp,staked]", k, "updates", [(u["k"], u["v"]) for u in c["ups"]],
               "tm_err", c.get("tm_err", ""), c.get("txs") or "")
     judge(ctx, cases, codes, tcases, tres, crashed, cres)
